@@ -840,8 +840,9 @@ fn build_matcher_tree(
                     ));
                 }
 
-                let bracket = args[i - 1];
-                if bracket == "(" {
+                // Nothing was parsed since the opening parenthesis (the word before
+                // this one may well be "(" without being one: -name "(").
+                if i == arg_index {
                     return Err(From::from(
                         "invalid expression; empty parentheses are not allowed.",
                     ));
